@@ -16,7 +16,8 @@ from pv.runner import Res
 ID = "C02"
 RULE = ("generated fragment-F domains (typed/untyped, subtypes, constants, negative literals, (in)equality, numeric "
         "comparisons, nested and/or, forall) x type-correct calls (repeated objects, constants, subtype objects) x "
-        "states total on all ground fluents; plus an exhaustive sweep of every precondition with <= 2 top-level "
+        "states total on all ground fluents (every third probe re-uses a State object, every other case re-uses the Operator "
+        "objects); plus an exhaustive sweep of every precondition with <= 2 top-level "
         "leaves + <= 1 nested group + <= 1 forall over a fixed vocabulary x every call over a 3-object universe x "
         "every assignment of the ground atoms the formula mentions x 3 fluent valuations.  One evaluation = one "
         "(formula, call, state) triple.  Non-trivial = the precondition is not a single literal and, over the "
@@ -26,11 +27,19 @@ ASSUMPTIONS = ["problem objects handed to Operator are the problem's objects plu
                "predicates and functions never share a name; quantified variables never shadow parameters"]
 
 
-def lib_applicable(domain, action_name, args, objs, state):
+def lib_applicable(domain, action_name, args, objs, state, ops=None):
+    """ops: a dict of Operator objects to re-use for the same call (an operator may be queried any number of
+    times, on any states); None = a fresh operator."""
     from pddl_plus_parser.models import Operator
 
     def run():
-        op = Operator(domain.actions[action_name], domain, list(args), objs)
+        key = (action_name, tuple(args))
+        if ops is not None and key in ops:
+            op = ops[key]
+        else:
+            op = Operator(domain.actions[action_name], domain, list(args), objs)
+            if ops is not None:
+                ops[key] = op
         return op.is_applicable(state)
     return lib_call(run)
 
@@ -74,6 +83,7 @@ def check_case(case):
     objs = lib_objects(domain, build_objects(domain, objects))
     truth = {}
     prev_state = None
+    ops = {}
     for i, pr in enumerate(case["probes"]):
         a = pddl.find_action(dom, pr["action"])
         st = unjstate(pr["state"])
@@ -96,7 +106,8 @@ def check_case(case):
         else:
             state = build_state(domain, world, st)
         prev_state = state
-        ok2, got = lib_applicable(domain, a["name"], pr["args"], objs, state)
+        # probes of one call share an Operator object in every other case
+        ok2, got = lib_applicable(domain, a["name"], pr["args"], objs, state, ops if len(case["probes"]) % 2 else None)
         exp = judge(res, "C02/applicable", a["pre"], env, st, world, ok2, got,
                     {"pre": a["pre"], "args": pr["args"], "state": pr["state"]})
         if exp is not None:
@@ -200,6 +211,7 @@ def check_sweep(case, res):
     fluent_keys = world.ground_fluents()
     seen_truth = set()
     n_eval = 0
+    sweep_ops = {}
     for args in world.calls(dom["actions"][0]):
         env = {"?x": args[0], "?y": args[1]}
         atoms = mentioned_atoms(pre, env, world)
@@ -211,7 +223,7 @@ def check_sweep(case, res):
                 fl = {k: vals[k[0]] + (Fraction(1, 2) if (len(k) > 1 and k[1] == "b") else 0) for k in fluent_keys}
                 st = (facts, fl)
                 state = build_state(domain, world, st)
-                ok2, got = lib_applicable(domain, "act", args, objs, state)
+                ok2, got = lib_applicable(domain, "act", args, objs, state, sweep_ops if vi else None)
                 exp = judge(res, "C02/sweep", pre, env, st, world, ok2, got,
                             {"pre": pre, "args": list(args), "state": jstate(st)})
                 n_eval += 1
@@ -226,7 +238,7 @@ def check_sweep(case, res):
 
 
 def gen(ch, tier):
-    ft = G.feats(forall_eff=False, when=False, max_actions=1)
+    ft = G.feats(forall_eff=False, when=False, max_actions=1, p_long_number=0.1, long_decimals=6, p_big_values=0.12)
     return S.gen_sem_case(ch, tier, ft, n_probes=8)
 
 
